@@ -71,7 +71,7 @@ template <class Dom> struct fuzz {
       os << "A[" << lo * ES << ".." << hi * ES << "] := " << val; log(os.str());
       d.array_store_range(A, z_number(ES), z_number((long)lo * ES), z_number((long)hi * ES), z_number((long)val));
       cset n; for (auto s : cs) { for (int c = lo; c <= hi; c++) s.A[c] = val; n.insert(s); } cs = n; return check(d, cs, "store range");
-    } else if (k < 58) { // range store up to i
+    } else if (k < 58 && !getenv("NORANGE")) { // range store up to i (NORANGE=1 disables it: it triggers the known finding F69)
       int val = r.in(-5, 5);
       os << "A[0..i] := " << val; log(os.str());
       d.array_store_range(A, z_number(ES), z_number(0), z_lin_exp_t(v[0]), z_number((long)val));
@@ -104,6 +104,8 @@ template <class Dom> struct fuzz {
       for (int q = 0; q < n1; q++) if (!step(d1, c1, depth + 1)) return false;
       log("} else {"); for (int q = 0; q < n2; q++) if (!step(d2, c2, depth + 1)) return false;
       log(widen ? "} widen" : "} join");
+      if (d1 <= d2) { if (!check(d2, c1, "d1 <= d2 answered yes (states of d1 against d2)")) return false; }
+      if (d2 <= d1) { if (!check(d1, c2, "d2 <= d1 answered yes (states of d2 against d1)")) return false; }
       d = widen ? (d1 || d2) : (d1 | d2); cs = c1; cs.insert(c2.begin(), c2.end()); cap(cs, r);
       return check(d, cs, widen ? "widen" : "join");
     }
